@@ -1688,6 +1688,18 @@ class NPProxy:
         def f(self, x, *a, **k):
             if isinstance(x, Sym):
                 return UFUNCS[name](x, *a)
+            if type(x).__name__ in ('SymInt', 'SymFloat'):
+                from . import symscalar as SS
+                if name == 'isnan':
+                    return SS.isnan(x)
+                if name in ('isinf', 'isfinite'):
+                    if isinstance(x, SS.SymInt):
+                        return name == 'isfinite'
+                    t = z3.fpIsInf(x.t) if name == 'isinf' else z3.Not(z3.Or(z3.fpIsInf(x.t), z3.fpIsNaN(x.t)))
+                    return mkbool(t)
+                if name in ('abs', 'absolute'):
+                    return abs(x)
+                raise Unsupported('np.%s of a symbolic python scalar' % name)
             return getattr(np, name)(x, *a, **k)
         return f
     isnan = _scalar('isnan'); isinf = _scalar('isinf'); isfinite = _scalar('isfinite'); sqrt = _scalar('sqrt')
